@@ -25,14 +25,16 @@ def run(ctx, wide, graphs, obs, rule, extra=None):
     gl = []
     for g in graphs:
         gl.append(dict(name=g["name"], constants=g["c"], trace_constants={"Obs": tla_set(obs)}, driver_args=[lib],
-                       variants=g["variants"], maxwalks=g.get("maxwalks"), maxlen=g.get("maxlen", 30)))
+                       variants=g["variants"], maxwalks=g.get("maxwalks"), maxlen=g.get("maxlen", 30),
+                       pairs=200 if ctx.tier == "quick" else 10000))
     r = pipeline.graphs_replay(ctx, "MC_Store", "Trace_Store", "vf.drv_store", gl, INV, PROPS, maxlen=30)
     ctx.coverage.update(dict(
         states=res.distinct + r["states"], transitions=res.generated + r["transitions"],
         traces_validated_against_impl=r["accepted"], executions=r["executions"], events_validated=r["events"],
         model_transitions_replayed=r["edges_replayed"], model_transitions_in_replayed_graphs=r["edges_total"],
         exhaustive=(r["edges_replayed"] == r["edges_total"]), calls_ok_failed_by_action=r["okcount"],
-        observations=obs, samples=[s[:3] for s in r["samples"][:1]], rule=rule))
+        observations=obs, samples=[s[:3] for s in r["samples"][:1]], rule=rule,
+        transition_pairs=dict(replayed=r.get("pairs_replayed", 0), in_graphs=r.get("pairs_total", 0))))
     if extra:
         ctx.coverage.update(extra)
     return lib
